@@ -74,10 +74,13 @@ type State struct {
 	StdinPipe bool
 	Visible   bool
 	Version   map[string]uint64
+	// SeekEnd records, per file name, the offset returned by the first
+	// Seek(0, io.SeekEnd) on it (where a follow began).
+	SeekEnd map[string]int64
 }
 
 // S is the current state (replaced by Reset).
-var S = &State{Open: map[*File]bool{}, MaxOpen: map[string]int{}, Version: map[string]uint64{}}
+var S = &State{Open: map[*File]bool{}, MaxOpen: map[string]int{}, Version: map[string]uint64{}, SeekEnd: map[string]int64{}}
 
 // Reset starts a fresh state.
 func Reset() *State {
@@ -86,7 +89,7 @@ func Reset() *State {
 			f.f.Close()
 		}
 	}
-	S = &State{Open: map[*File]bool{}, MaxOpen: map[string]int{}, Version: map[string]uint64{}}
+	S = &State{Open: map[*File]bool{}, MaxOpen: map[string]int{}, Version: map[string]uint64{}, SeekEnd: map[string]int64{}}
 	return S
 }
 
@@ -248,7 +251,13 @@ func (f *File) Seek(off int64, whence int) (int64, error) {
 	if f.stdin {
 		return 0, errFrozen
 	}
-	return f.f.Seek(off, whence)
+	n, err := f.f.Seek(off, whence)
+	if whence == io.SeekEnd && err == nil {
+		if _, seen := S.SeekEnd[f.name]; !seen {
+			S.SeekEnd[f.name] = n
+		}
+	}
+	return n, err
 }
 
 type stdinInfo struct{ pipe bool }
